@@ -290,6 +290,9 @@ class Render:
         self.body(n[2], indent + 1)
         o = n[3]
         if o is not None:
+            if self.cos and self.rng.random() < 0.25:
+                # a comment line at CLAUSE indentation between two clauses: a child of the if statement in the concrete syntax tree
+                self.lines.append("    " * indent + "# next clause %d" % self.rng.randrange(1000))
             if o[0] == "elif":
                 self.render_if(o[1], indent, "elif")
             else:
@@ -495,6 +498,9 @@ class Instr:
         self.body(n[2], indent + 1)
         o = n[3]
         if o is not None:
+            if self.cos and self.rng.random() < 0.25:
+                # a comment line at CLAUSE indentation between two clauses: a child of the if statement in the concrete syntax tree
+                self.lines.append("    " * indent + "# next clause %d" % self.rng.randrange(1000))
             if o[0] == "elif":
                 self.render_if(o[1], indent, "elif")
             else:
